@@ -98,6 +98,8 @@ class Engine:
         sc = {"prop": prop, "layer": layer, "n": n}
         if layer == 1:
             mx = T.between(1, 8)
+            if T.draw(12) == 0:
+                mx = T.between(9, 45)   # occasionally long tokens
             sc["tok"] = {
                 "max_length": mx, "min_length": T.between(1, mx),
                 "mcs": T.draw(mx),
